@@ -14,6 +14,7 @@
 #include "message.h"
 #include "array.h"
 #include "queue.h"
+#include "convert.h"
 #include "mc.hpp"
 
 using namespace mc;
@@ -190,7 +191,7 @@ struct Case {
 	else if (!eq_) c.fail(fn, icls, acls, "wrong-result", std::string(desc) + " on " + c.where() + ": " + k.diff()); } while (0)
 
 // ------------------------------------------------------------------ path counters (vacuity)
-struct Paths { uint64_t nontrivial, beyond_first, tok_comment_cross, tok_newline_cross, tok_empty_in_comment, zbase_unreadable, zbase_newline, trim_cross, quote_cross, read_cross, argv_multi, array_args, memcpy_both, memcpy_partial, append_multi, append_fail_late, append_fail_reloc, qget_two, qget_cross, qget_atwrap, qget_novec_ok, qget_cxx_novec, with_empty, inline_form, list_form; };
+struct Paths { uint64_t nontrivial, beyond_first, tok_comment_cross, tok_newline_cross, tok_empty_in_comment, zbase_unreadable, zbase_newline, trim_cross, quote_cross, read_cross, argv_multi, array_args, memcpy_both, memcpy_partial, append_multi, append_fail_late, append_fail_reloc, qget_two, qget_cross, qget_atwrap, qget_novec_ok, qget_cxx_novec, epush_multi, epush_leading_empty, epush_encoded, with_empty, inline_form, list_form; };
 static Paths P;
 
 // ------------------------------------------------------------------ search functions on iovec lists
@@ -393,6 +394,7 @@ void mc_jobs(Tier t, std::vector<std::string> &jobs)
 	for (const char *g : {"argv", "search"}) for (size_t n = 0; n <= 3 && n <= b.Lstr; ++n) jobs.push_back(fmt("%s/n=%zu", g, n));
 	jobs.push_back("append");
 	jobs.push_back("append-fail");
+	for (size_t n = 0; n <= (t == Quick ? 5u : 6u); ++n) jobs.push_back(fmt("epush/n=%zu", n));
 	for (size_t m = 1; m <= b.Qmax; ++m) jobs.push_back(fmt("qget/max=%zu", m));
 }
 
@@ -717,6 +719,74 @@ static void body_append_fail(Run &r, const std::string &, Ctx &x)
 	r.transitions += c.evals;
 }
 
+// ---- encode_array::push(const message &): the C++ "append a message to an (encoding) array".
+// Strings over {x, NUL} (NUL matters to the COBS encoder), all cuts, both message forms, raw and COBS encoded array,
+// fresh array and array that already holds a finished message.  Result = {push(msg), terminating push(0,0), finished
+// bytes, done, scratch}.  The contiguous reference runs in a forked child (historically it never returned); once a
+// reference call faulted the job stops evaluating (the violating execution is not expanded).
+static std::string epush_blob(const mpt::message &m, int enc, int pre, bool *asan)
+{
+	mpt::encode_array a(enc ? (mpt::data_encoder_t) mpt::mpt_encode_cobs : (mpt::data_encoder_t) 0);
+	if (pre) { a.push(1, "P"); a.push(0, 0); }
+	asan_error();
+	bool ok = a.push(m);
+	ssize_t fin = a.push(0, 0);
+	*asan = asan_error();
+	mpt::span<const uint8_t> d = a.data();
+	Sink k; k.begin(); k.num(ok ? 1 : 0); k.num(fin); k.num((int64_t) a._state.done); k.num((int64_t) a._state.scratch); k.bytes(d.begin(), d.size());
+	return k.blob();
+}
+static void body_epush(Run &r, const std::string &job, Ctx &x)
+{
+	Bounds b = bounds(r.tier);
+	size_t n = jobnum(job, "n=");
+	uint8_t s[16];
+	{ size_t v = x.choose((size_t) 1 << n); for (size_t i = 0; i < n; ++i) s[i] = (v >> i & 1) ? 0 : 'x'; }
+	int enc = (int) x.choose(2), pre = (int) x.choose(2);
+	static std::vector<size_t> parts, lens;
+	composition(n, x.choose(ncomp(n)), parts);
+	static std::map<std::string, std::string> refs; static bool broken = false;
+	static Frags one, f;
+	Case c(r); c.s = s; c.n = n; c.lens = &lens;
+	r.hint("encode_array::push(message)");
+	std::string acls = std::string(enc ? "cobs-encoder" : "raw") + (pre ? ",array-with-finished-message" : ",fresh-array");
+	if (broken) { r.count("epush_skipped_after_reference_fault"); return; }
+	std::string key = std::string((const char *) s, n) + char('0' + enc) + char('0' + pre);
+	if (!refs.count(key)) {
+		lens.assign(1, n); one.build(s, lens);
+		mpt::message m = one.msg(1);
+		std::string o = in_child([&]() { bool as = false; std::string bl = epush_blob(m, enc, pre, &as); return (as ? std::string("A") : std::string("R")) + bl; }, 3);
+		refs[key] = o; ++c.evals;
+		c.isref = true;
+		if (o.empty() || o[0] == '\x01') { broken = true; c.fail("encode_array::push(message)", "", acls, "fault", "encode_array::push(message(" + show(s, n) + fmt(", %zu)) does not return (forked child, 3 s)", n)); }
+		else if (o[0] == 'A') c.fail("encode_array::push(message)", "", acls, "asan", "encode_array::push on " + c.where() + ": access outside the message (AddressSanitizer)");
+		c.isref = false;
+		if (broken) return;
+	}
+	const std::string &ref = refs[key];
+	int E = n > 5 ? 1 : b.E;
+	for (const std::vector<uint8_t> &z : zero_places(parts.size(), E)) {
+		with_zeros(parts, z, lens);
+		f.build(s, lens);
+		if (r.replaying) r.note("input %s cut as %s, %s", show(s, n).c_str(), show_cut(s, lens).c_str(), acls.c_str());
+		for (int form = 0; form < 2; ++form) {
+			if (form && lens.empty()) continue;
+			c.form = form ? "message, first part inline" : "message, pure iovec list";
+			mpt::message m = f.msg(form);
+			bool as = false;
+			std::string got = epush_blob(m, enc, pre, &as);
+			++c.evals; count_case(r, lens, 1); ++(form ? P.inline_form : P.list_form);
+			if (lens.size() > 1 && n) ++P.epush_multi;
+			if (!m.used && n) ++P.epush_leading_empty;
+			if (enc && lens.size() > 1) ++P.epush_encoded;
+			if (as) c.fail("encode_array::push(message)", "", acls, "asan", "encode_array::push on " + c.where() + ": access outside the message (AddressSanitizer)");
+			else if (got != ref.substr(1)) c.fail("encode_array::push(message)", "", acls, "wrong-result", "encode_array::push on " + c.where() + ": {push, terminate, done, scratch, finished bytes} fragmented form gives {" + Sink::decode((const uint8_t *) got.data(), got.size()) + "}, contiguous form gives {" + Sink::decode((const uint8_t *) ref.data() + 1, ref.size() - 1) + "}");
+		}
+		if (lens.size() == 3 && n == 3 && lens[0] == 0 && enc && !pre) r.sample("epush: encode_array(COBS).push(message " + show_cut(s, lens) + ") ; push(0,0) as list and inline message vs " + show(s, n));
+	}
+	r.transitions += c.evals;
+}
+
 // mpt_message_get: every ring state (max,off,len) x (offset,take); reference = same content stored unwrapped (off=0)
 static void body_qget(Run &r, const std::string &job, Ctx &x)
 {
@@ -820,6 +890,7 @@ static void body(Run &r, const std::string &job, Ctx &x)
 	else if (job.compare(0, 7, "memcpy/") == 0) body_memcpy(r, job, x);
 	else if (job == "append") body_append(r, job, x);
 	else if (job == "append-fail") body_append_fail(r, job, x);
+	else if (job.compare(0, 6, "epush/") == 0) body_epush(r, job, x);
 	else if (job.compare(0, 5, "qget/") == 0) body_qget(r, job, x);
 }
 
@@ -829,7 +900,7 @@ void mc_explore(Run &r, const std::string &job)
 	const char *req[] = {"nontrivial", "cases_with_zero_length_fragment", "form_inline_first_part", "form_pure_iovec_list", "search_hit_beyond_first_fragment",
 	                     "memtok_comment_started_in_earlier_fragment", "memtok_comment_ended_by_newline_in_later_fragment", "memtok_zero_length_fragment_inside_comment", "empty_fragment_base_unreadable", "empty_fragment_base_foreign_newline", "argv_space_at_fragment_end", "argv_quoted_input_fragmented", "argv_iterated_more_than_one_argument",
 	                     "array_message_more_than_one_argument", "read_crossing_fragment_boundary", "memcpy_source_and_target_fragmented", "memcpy_open_length_partial",
-	                     "append_multi_fragment", "append_fails_after_leading_fragments_went_in", "qget_two_part_message", "qget_range_crossing_wrap", "qget_offset_exactly_at_wrap_point", "qget_wrapped_one_piece_without_vec", "decode_queue_current_message_wrapped_one_piece_without_cont"};
+	                     "append_multi_fragment", "append_fails_after_leading_fragments_went_in", "encode_array_push_message_multi_fragment", "encode_array_push_message_empty_first_part", "encode_array_push_message_with_encoder", "qget_two_part_message", "qget_range_crossing_wrap", "qget_offset_exactly_at_wrap_point", "qget_wrapped_one_piece_without_vec", "decode_queue_current_message_wrapped_one_piece_without_cont"};
 	for (const char *q : req) r.require(q);
 	dfs(r, [&](Ctx &x) { body(r, job, x); });
 	r.count("nontrivial", P.nontrivial); r.count("cases_with_zero_length_fragment", P.with_empty);
@@ -841,7 +912,8 @@ void mc_explore(Run &r, const std::string &job)
 	r.count("read_crossing_fragment_boundary", P.read_cross);
 	r.count("memcpy_source_and_target_fragmented", P.memcpy_both); r.count("memcpy_open_length_partial", P.memcpy_partial);
 	r.count("append_multi_fragment", P.append_multi); r.count("append_fails_after_leading_fragments_went_in", P.append_fail_late); r.count("append_fails_after_buffer_was_relocated", P.append_fail_reloc);
- r.count("qget_two_part_message", P.qget_two); r.count("qget_range_crossing_wrap", P.qget_cross); r.count("qget_offset_exactly_at_wrap_point", P.qget_atwrap);
+ r.count("encode_array_push_message_multi_fragment", P.epush_multi); r.count("encode_array_push_message_empty_first_part", P.epush_leading_empty); r.count("encode_array_push_message_with_encoder", P.epush_encoded);
+	r.count("qget_two_part_message", P.qget_two); r.count("qget_range_crossing_wrap", P.qget_cross); r.count("qget_offset_exactly_at_wrap_point", P.qget_atwrap);
 	r.count("qget_wrapped_one_piece_without_vec", P.qget_novec_ok); r.count("decode_queue_current_message_wrapped_one_piece_without_cont", P.qget_cxx_novec);
 }
 
